@@ -14,6 +14,7 @@ pub const BBURN: Address = address!("b0000000000000000000000000000000000000a7");
 pub const PROBE: Address = address!("b0000000000000000000000000000000000000a8"); // depth probe
 pub const BRET64: Address = address!("b0000000000000000000000000000000000000a9"); // returns 64 bytes of 0xee..
 pub const BNEST: Address = address!("b0000000000000000000000000000000000000aa"); // calls BWRITE then reverts
+pub const BSDREV: Address = address!("b0000000000000000000000000000000000000ab"); // calls BSD (which self-destructs), then reverts
 pub const ID: Address = address!("0000000000000000000000000000000000000004");
 pub const ECREC: Address = address!("0000000000000000000000000000000000000001");
 
@@ -61,6 +62,9 @@ pub fn code_bnest() -> Vec<u8> {
         .op(op::REVERT)
         .build()
 }
+pub fn code_bsdrev() -> Vec<u8> {
+    Asm::new().call(op::CALL, U256::from(60000), BSD, Some(U256::ZERO), 0, 0, 0, 0).op(op::POP).push_u(0).push_u(0).op(op::REVERT).build()
+}
 /// Calls itself with (almost) all gas; returns the number of nested calls that succeeded below it.
 pub fn code_probe() -> Vec<u8> {
     Asm::new()
@@ -96,6 +100,7 @@ pub fn std_world() -> Plain {
     w.insert(PROBE, PlainAcc::contract(&code_probe()));
     w.insert(BRET64, PlainAcc::contract(&code_bret64()));
     w.insert(BNEST, PlainAcc::contract(&code_bnest()));
+    w.insert(BSDREV, PlainAcc::contract(&code_bsdrev()));
     w.insert(RICH, PlainAcc { balance: U256::MAX, ..Default::default() });
     w.insert(DUST, PlainAcc::default());
     w.insert(STOR, PlainAcc::default().with_storage(1, 1));
